@@ -52,10 +52,16 @@ const (
 	c18MaxLife = 14 * 24 * time.Hour // "does not exceed 14 days"
 	// bucket period as documented in cert_manager.go; used only to place the start grid
 	c18Period = c18MaxLife - 2*c18Skew
-	// c18ConfirmIsViolation: whether "an address learned in the previous period is no longer CONFIRMED by the
-	// server's hash list" counts as a violation. The statement obliges the dialer ("completes only if the
-	// server confirms"), not the server, so this is recorded as an outcome class only (see report).
-	c18ConfirmIsViolation = false
+	// Confirmation of learned addresses ("an address learned at any time keeps verifying through the current and the
+	// following certificate period" + "completes the connection only if the server confirms ... every certificate hash
+	// the dialer relied on"): the list SerializedCertHashes() - what listener.handshake sends as Noise early data - of
+	// a manager that has been RUNNING since the address was advertised must contain every hash of every address it
+	// advertised during the current or the previous certificate period; otherwise a dialer that learned that address
+	// pins the served certificate and is then refused by upgrade() ("missing cert hash"). That is a violation.
+	// An address advertised by an EARLIER RUN (before a restart) is judged as before: a restarted manager cannot know
+	// the previous certificate, the statement obliges the dialer to require confirmation, not a restarted server to
+	// give it, so that case is recorded as an outcome class only (see report).
+	c18ConfirmAfterRestartIsViolation = false
 )
 
 // ---------- host keys ----------
@@ -273,6 +279,7 @@ type c18Adv struct {
 	addr map[string]bool              // SHA2-256 digests among the certhash components of AddrComponent()
 	dec  []multihash.DecodedMultihash // extractCertHashes(AddrComponent()): what a dialer pins
 	at   time.Time
+	run  int // the latest run of the manager (= number of restarts before it) that advertised exactly this
 }
 
 type c18Inst struct {
@@ -290,7 +297,6 @@ type c18Inst struct {
 	servedE         time.Time
 	advCur, advPrev []*c18Adv
 	lastSample      time.Time
-	restartedInCur  bool // the manager was restarted during the current period (it cannot know the previous certificate)
 	advKey          string
 	advLast         *c18Adv
 	shaCache        map[string]string
@@ -483,7 +489,6 @@ func (in *c18Inst) sample(pos string, boundary, first, fresh bool) error {
 		}
 		in.advPrev, in.advCur = in.advCur, nil
 		in.rolls++
-		in.restartedInCur = false
 	}
 
 	// --- "valid for at least the clock-skew allowance and stays valid for at least that long"
@@ -540,11 +545,12 @@ func (in *c18Inst) sample(pos string, boundary, first, fresh bool) error {
 	for _, a := range in.advCur {
 		if a.sig == sig {
 			known = true
+			a.run = in.restarts // advertised (again) by the manager that is running now
 		}
 	}
 	if !known {
 		a := *in.advLast
-		a.at = now
+		a.at, a.run = now, in.restarts
 		in.advCur = append(in.advCur, &a)
 	}
 
@@ -554,6 +560,23 @@ func (in *c18Inst) sample(pos string, boundary, first, fresh bool) error {
 			if !a.addr[hash] {
 				return seqmc.Violation("learned-address-stops-verifying", "at %s the served certificate (sha256 %s) is not pinned by the address learned at %s (%s)",
 					in.rel(now), hash[:16], in.rel(a.at), a.sig)
+			}
+			// would the server CONFIRM every hash of that address in its Noise early data?
+			confirmed, missing := true, ""
+			for h := range a.addr {
+				if !sm[h] {
+					confirmed, missing = false, h
+				}
+			}
+			cls := "current period"
+			if gi == 1 {
+				cls = "previous period"
+			}
+			if !confirmed && a.run == in.restarts {
+				// the manager has been running ever since it advertised that address: it is the one that has to confirm it
+				return seqmc.Violation("learned-address-not-confirmed-by-running-manager",
+					"at %s (%s) the manager, running without a restart since it advertised the address learned at %s in the %s (%s), serves a certificate that address pins (sha256 %s) but SerializedCertHashes() - the list confirmed inside the Noise handshake - lacks its hash %s: %s; the dialer's upgrade() refuses with \"missing cert hash\"",
+					in.rel(now), pos, in.rel(a.at), cls, a.sig, hash[:16], missing[:16], sig)
 			}
 			if !first {
 				continue
@@ -568,29 +591,15 @@ func (in *c18Inst) sample(pos string, boundary, first, fresh bool) error {
 					}
 				}
 			}
-			// would the server CONFIRM every hash of that address in its Noise early data?
-			confirmed := true
-			for h := range a.addr {
-				if !sm[h] {
-					confirmed = false
-				}
-			}
-			cls := "current period"
-			if gi == 1 {
-				cls = "previous period"
-			}
 			switch {
+			case confirmed && a.run == in.restarts:
+				in.outcome("address learned in the " + cls + " from the running manager: every hash confirmed by SerializedCertHashes")
 			case confirmed:
-				in.outcome("address learned in the " + cls + ": every hash confirmed by SerializedCertHashes")
-			case in.restartedInCur:
-				in.outcome("address learned in the " + cls + ": a hash is NOT confirmed (manager restarted in this period)")
-				if c18ConfirmIsViolation {
+				in.outcome("address learned in the " + cls + " from an earlier run (before a restart): every hash confirmed by SerializedCertHashes")
+			default: // a.run != in.restarts: see c18ConfirmAfterRestartIsViolation
+				in.outcome("address learned in the " + cls + " from an earlier run (before a restart): a hash is NOT confirmed by the restarted manager (observation, not flagged)")
+				if c18ConfirmAfterRestartIsViolation {
 					return seqmc.Violation("learned-address-not-confirmed-after-restart", "at %s address learned at %s (%s) vs server list %s", in.rel(now), in.rel(a.at), a.sig, sig)
-				}
-			default:
-				in.outcome("address learned in the " + cls + ": a hash is NOT confirmed (no restart)")
-				if c18ConfirmIsViolation {
-					return seqmc.Violation("learned-address-not-confirmed", "at %s address learned at %s (%s) vs server list %s", in.rel(now), in.rel(a.at), a.sig, sig)
 				}
 			}
 		}
@@ -793,7 +802,6 @@ func (s *c18Sys) apply(in *c18Inst, op c18Op) (err error) {
 		}
 		in.m = m
 		in.restarts++
-		in.restartedInCur = true
 		synctest.Wait()
 		nraw := m.GetConfig().Certificates[0].Certificate[0]
 		if !bytes.Equal(nraw, oldRaw) {
@@ -815,7 +823,7 @@ func (s *c18Sys) keyOf(in *c18Inst) string {
 	}
 	now := in.clk.harnessNow()
 	var sb strings.Builder
-	fmt.Fprintf(&sb, "t=%d dead=%v lastOp=%d rolls=%d restarts=%d rinc=%v|", now.Sub(s.base), in.dead, in.lastOp, in.rolls, in.restarts, in.restartedInCur)
+	fmt.Fprintf(&sb, "t=%d dead=%v lastOp=%d rolls=%d restarts=%d|", now.Sub(s.base), in.dead, in.lastOp, in.rolls, in.restarts)
 	m := in.m
 	for _, c := range []*certConfig{m.lastConfig, m.currentConfig, m.nextConfig} {
 		if c == nil {
@@ -828,6 +836,9 @@ func (s *c18Sys) keyOf(in *c18Inst) string {
 		fmt.Fprintf(&sb, "s%x,", h)
 	}
 	fmt.Fprintf(&sb, "|a=%v|", m.addrComp)
+	// fields a later change adds to certManager join the key (they would otherwise be abstracted away)
+	sb.WriteString(seqmc.ExtraFields(m, "clock", "ctx", "ctxCancel", "refCount", "mx", "lastConfig", "currentConfig", "nextConfig", "addrComp", "serializedCertHashes"))
+	sb.WriteString("|")
 	if in.clk.mock != nil {
 		for _, t := range c18MockTimers(in.clk.mock) {
 			fmt.Fprintf(&sb, "timer@%d,", t.Sub(s.base))
@@ -836,7 +847,7 @@ func (s *c18Sys) keyOf(in *c18Inst) string {
 	sb.WriteString("|trk:")
 	for _, g := range [][]*c18Adv{in.advCur, in.advPrev} {
 		for _, a := range g {
-			sb.WriteString(a.sig + ";")
+			fmt.Fprintf(&sb, "%s@run%d;", a.sig, a.run)
 		}
 		sb.WriteString("/")
 	}
